@@ -242,6 +242,9 @@ c.ensures('headers-kept-and-typed', "implies(packets is not None, result['header
 c.ensures('body-is-the-payload', "implies(packets is not None and jsonp_index is None, "
           "result['response'] == payload_text(packets, len(packets)).encode('utf-8'))",
           props=['C03', 'C02'])
+c.ensures('jsonp-body', "implies(packets is not None and jsonp_index is not None, "
+          "result['response'] == jsonp_body(jsonp_index, payload_text(packets, len(packets)))"
+          ".encode('utf-8'))", props=['C19'])
 c.modifies('Packet.encode_cache', 'new Payload.packets')
 
 c = REG.contract('base_server.BaseServer._generate_sid_cookie', props=['C11'])
